@@ -318,21 +318,29 @@ class Program:
         return ls[line - 1] if 0 < line <= len(ls) else None
 
     def lookup(self, callee):
-        """Resolve a call target text to a dumped function (exact name, then unique path-suffix match)."""
+        """Resolve a call target text to a dumped function: exact name, or a unique function whose path ends with the whole
+        given path (never with a shorter suffix of it: `fmt::format` must not resolve to some `...::format`)."""
         c = strip_generics(callee)
         if c in self.fns:
             return self.fns[c]
-        tail = c.split("::")
-        for k in range(len(tail)):
-            suffix = "::".join(tail[k:])
-            cands = [f for n, f in self.fns.items() if n == suffix or n.endswith("::" + suffix)]
-            if len(cands) == 1:
-                return cands[0]
-            if len(cands) > 1:
-                exact = [f for f in cands if f.name == suffix]
-                if len(exact) == 1:
-                    return exact[0]
-                return None
+        if "::" not in c:
+            # a bare name only ever resolves exactly (`format` is alloc::fmt::format, not some method) - in this crate or,
+            # for re-exported items, at the root of a dependency crate loaded under its crate prefix
+            for pre in getattr(self, "crate_prefixes", ("incan_core::",)):
+                if pre + c in self.fns:
+                    return self.fns[pre + c]
+            return None
+        cands = [f for n, f in self.fns.items() if n.endswith("::" + c)]
+        if len(cands) == 1:
+            return cands[0]
+        if len(cands) > 1:
+            return None
+        # the dump prints crate-local paths relative to the crate root; a call may carry a longer (absolute) path
+        parts = c.split("::")
+        for k in range(1, len(parts) - 1):
+            suffix = "::".join(parts[k:])
+            if suffix in self.fns and len(parts) - k >= 2:
+                return self.fns[suffix]
         return None
 
     def resolve_inherent(self, callee):
@@ -508,8 +516,24 @@ class Executor:
     # ---- entry -------------------------------------------------------------------------------------------
     def run(self, fn, args, subst=None, depth=0, state=None):
         """Execute `fn` on argument values; returns [Outcome] (Outcome.state carries the final store/facts)."""
-        if depth > 16:
-            raise Unsupported("call depth > 16 in " + fn.name)
+        if depth > 24:
+            raise Unsupported("call depth > 24 in " + fn.name)
+        stack = getattr(self, "call_stack", None)
+        if stack is None:
+            stack = self.call_stack = []
+        if stack.count(fn.name) > getattr(self, "recursion_bound", 2):
+            # bounded recursion: deeper instances are outside the stated bound (path dropped, recorded)
+            if not hasattr(self, "truncated"):
+                self.truncated = set()
+            self.truncated.add(fn.name)
+            return []
+        stack.append(fn.name)
+        try:
+            return self._run(fn, args, subst, depth, state)
+        finally:
+            stack.pop()
+
+    def _run(self, fn, args, subst, depth, state, entry="bb0", preset=None):
         if fn.name not in self.encoded:
             self.encoded.append(fn.name)
         subst = subst or {}
@@ -517,17 +541,31 @@ class Executor:
         self.frame_counter += 1
         frame = self.frame_counter
         st.store[frame] = {}
+        if not hasattr(self, "frame_fn"):
+            self.frame_fn = {}
+        self.frame_fn[frame] = (fn, subst, entry != "bb0")
         for (l, _), a in zip(fn.params, args):
             st.store[frame][l] = a
         for l, t in fn.locals.items():
             # capture-less closures / zero-sized values are never assigned in MIR but may be borrowed
             if l not in st.store[frame] and (t.startswith("{closure@") or t.startswith("[closure@")):
                 st.store[frame][l] = Opaque("closure " + t)
+        for l, v in (preset or {}).items():
+            st.store[frame][l] = v
         outs = []
-        self._block(fn, frame, "bb0", st, subst, outs, depth, 0)
+        self._block(fn, frame, entry, st, subst, outs, depth, 0)
         for o in outs:
             o.state.store.pop(frame, None)
         return outs
+
+    def run_slice(self, fn, entry_bb, preset, args=()):
+        """Execute `fn` from the start of block `entry_bb` with the given locals preset (parameters from `args`): the code
+        before the entry block (e.g. recursive checks of sub-expressions) is summarised by arbitrary values of its results."""
+        self.call_stack = [fn.name]
+        try:
+            return self._run(fn, list(args), {}, 0, None, entry=entry_bb, preset=preset)
+        finally:
+            self.call_stack = []
 
     def _ty(self, fn, local, subst):
         return apply_subst(fn.locals.get(local, "?"), subst)
@@ -604,6 +642,11 @@ class Executor:
                 callee, argtexts = parse_call(call)
                 args = [self._operand(fn, frame, parse_operand(a), st, subst) for a in argtexts]
                 callee = apply_subst(callee, subst)
+                self.dest_type = None
+                if dest:
+                    dp = parse_place(dest)
+                    self.dest_type = self._ty(fn, dp.local, subst) if not dp.proj else None
+                self.diverging = ret_bb is None
                 results = self._call(fn, callee, args, depth, st)
                 for (kind, val, info, st2) in results:
                     if kind == "panic" or ret_bb is None:
@@ -701,6 +744,9 @@ class Executor:
         for pat, h in getattr(self, "state_intrinsics", {}).items():
             if re.search(pat, callee):
                 return h(self, callee, args, st)
+        for pat in getattr(self, "summarize", ()):
+            if re.search(pat, callee) and self.opaque_calls:
+                return self.opaque_calls(self, callee, args, st)
         cm = re.match(r"^<&?(?:mut )?(\{closure@[^}]+\}) as .*Fn(?:Mut|Once)?<.*>>::call(?:_mut|_once)?$", callee)
         if cm:
             ctext = cm.group(1)
@@ -713,6 +759,13 @@ class Executor:
             return [(o.kind, o.value, o.info, o.state) for o in outs]
         m = re.match(r"^<(.+) as (.+)>::(\w+)$", callee)
         target = None
+        if m and m.group(3) == "ne" and m.group(2).split("<")[0].split("::")[-1] == "PartialEq":
+            # default method: a != b  is  !(a == b)
+            eqf = self.p.resolve_trait_call(m.group(1), m.group(2), "eq")
+            if eqf is not None:
+                outs = self.run(eqf, args, {}, depth + 1, st)
+                return [(o.kind, S("bool", simplify_bool(neg(o.value.term))) if o.kind == "return" else o.value, o.info, o.state)
+                        for o in outs]
         if m:
             target = self.p.resolve_trait_call(m.group(1), m.group(2), m.group(3))
             if target is None and not self.opaque_calls:
@@ -739,7 +792,12 @@ class Executor:
     def _load(self, frame, place, st):
         loc = st.store.get(frame, {})
         if place.local not in loc:
-            raise Unsupported(f"read of unassigned local {place.local}")
+            fn, subst, sliced = getattr(self, "frame_fn", {}).get(frame, (None, None, False))
+            if not sliced or fn is None or place.local not in fn.locals:
+                raise Unsupported(f"read of unassigned local {place.local}")
+            # slice mode: a local assigned before the entry block holds an arbitrary value of its type
+            self.sym_counter += 1
+            loc[place.local] = self.sym_value(apply_subst(fn.locals[place.local], subst), f"pre{self.sym_counter}{place.local}")
         v = loc[place.local]
         for pr in place.proj:
             v = self.deref(v, st)
@@ -951,6 +1009,13 @@ class Executor:
             parts = split_top(rhs[1:-1])
             return Tup([self._operand(fn, frame, parse_operand(x), st, subst) for x in parts])
         hint_name = type_head(hint) if hint else None
+        cm = re.match(r"^(\{closure@[^}]*\})\s*\{(.*)\}$", rhs)
+        if cm:
+            fields = []
+            for part in split_top(cm.group(2)):
+                fname, fop = part.split(":", 1)
+                fields.append((fname.strip(), self._operand(fn, frame, parse_operand(fop), st, subst)))
+            return Adt(cm.group(1), None, fields)
         m = re.match(r"^([\w:<>', &\[\]()*]+?)\s*\{(.*)\}$", rhs)
         if m:
             path = strip_generics(m.group(1).strip())
